@@ -124,6 +124,10 @@ PROPS.update({
 # ---- texts brought up to date in the fourth session (functions verified since: projections, signature vector, generators, chain step,
 # transition matrix, s-centralities); they replace the entries above
 _NEW = {
+    'C11': dict(level="exploration",
+          technique='contract-based deductive verification (AST->VC, z3; two lemmas in Lean) of the connectivity test _is_connected that selects the patterns and the node subsets + bounded run-time contract checking of the motif census against brute-force enumeration of all 3-/4-node subsets, relabelling and insertion-order invariance',
+          text="_is_connected(edges, N) is proved, for every list of duplicate-free tuples and every N >= 1, to return True exactly when the list is non-empty, exactly N labels occur, every label has a neighbour and all labels lie in one reachability class (least set closed under sharing a listed tuple) - through loop invariants over the real adjacency-building loops and the real queue search. The census itself (three enumerators with closures over mutable dictionaries, recursion and itertools; a global counting identity) is outside the deductive engine: it is checked on all hypergraphs of a stated small scope (all 2048 on 4 nodes, 5 nodes with few hyperedges), all relabellings, and seeded random ones; the 6 / 171 classes are recomputed independently. For directed censuses the statement defines no count oracle: only invariance, canonical representatives and 'larger hyperedges ignored' are checked.",
+          design_ref='DESIGN.md §7 C11', assumptions=['which element deque.pop() / next(iter(dict)) returns is not modelled (any element); termination of the search is not proved', 'comp_class (classes of a symmetric relation are equal or disjoint) is proved in lean/Comp.lean, not by z3']),
     'C10': dict(level="exploration",
           technique='contract-based deductive verification (AST->VC, z3) of clique_projection, bipartite_projection, line_graph and directed_line_graph (both distances, weighted or not) over an assumed networkx contract, and of the similarity kernels + bounded run-time contract checking of every projection and the simplicial complex against set-builder definitions',
           text='clique_projection (link iff two different nodes share a hyperedge; documented vertex set), line_graph (id table a bijection onto the hyperedges; link iff different, sharing a node and similarity >= s; weight = similarity or 1) and directed_line_graph (arc e->f iff e != f and similarity of target(e) and source(f) >= s) are proved for all hypergraphs, thresholds and both distance functions, through loop invariants over the real nested loops; intersection / jaccard_similarity / jaccard_distance for all sets. bipartite_projection: the id table maps the names N<i> / E<j> bijectively onto nodes / hyperedges and a hyperedge vertex is linked to a node vertex iff the node belongs to the hyperedge (vertex names as a datatype; assumed: str(i) is injective and contains no letter). networkx is modelled by an assumed contract; simplicial_complex is outside the subset. Every clause of the statement is evaluated on all small hypergraphs of a stated scope and on seeded random ones for all 12 (distance, threshold, weighted) configurations.',
